@@ -13,8 +13,8 @@ import (
 	"path/filepath"
 	"strings"
 	"sync"
-	"syscall"
 	"sync/atomic"
+	"syscall"
 	"time"
 
 	hclog "github.com/hashicorp/go-hclog"
@@ -882,6 +882,14 @@ func init() {
 				&c15Case{proto: proto, mode: "dead", crash: true, ops: []string{"C", "S", "K", "S"}})
 			cases = append(cases, &c15Case{proto: proto, mode: "live", stub: true, ops: []string{"S", "K"}},
 				&c15Case{proto: proto, mode: "live", stub: true, ops: []string{"C", "K"}})
+		}
+		// killing a reattached plugin that is frozen
+		for _, proto := range []string{"netrpc", "grpc"} {
+			if proto == "netrpc" && tier() != "thorough" {
+				continue // bounded by the yamux keep-alive (~40 s): thorough tier only
+			}
+			impl, pred := runReattachKillFrozen(proto)
+			o.emit("!C15.reattach-kill-frozen proto="+proto, impl, pred)
 		}
 		// a test-mode plugin process that has stopped: reattaching to it is "process not found" too
 		for _, proto := range []string{"netrpc", "grpc"} {
